@@ -104,6 +104,24 @@ var sources = []string{
 	"T | extend a+1 | summarize count(), sum(a) by k  \n",
 	"\t T | where $left.a == 1",
 	"  let q = 2; T | where isnull(a) or x > q | top q by x",
+	// lets that do not stand at the very start of the source (a comment, an empty
+	// statement, a blank line first), then programs that use those names unbound
+	"// thresholds\nlet cutoff = 10;\nEvents | where n > cutoff",
+	"Events | where cutoff > 1 | project cutoff",
+	"; let floor1 = 3; T | where a > floor1",
+	"T | where floor1 == 0 | extend floor1",
+	"\n\nlet ceil1 = 'c'; T | where s == ceil1",
+	" \t// a\n// b\n;;let mid1 = true; T | where mid1",
+	"T | where mid1 and ceil1 == 'd'",
+	// several independent errors of one kind in one source (which is reported must not vary)
+	"let n = 1; let x = n + first_col * second_col; T | take x",
+	"let y = alpha1 + beta1 + gamma1 + delta1 + eps1; T",
+	"T | where not() and isnull() and tolower() == toupper(a, b)",
+	"T | where $left.a == $right.b and $right.c == $left.d",
+	"T | extend a = strcat(), b = iff(1), c = now(2), d = count(3)",
+	"T | join kind=aaa (U | join kind=bbb (V) on k) on k | join kind=ccc (W) on k",
+	"let a = u1; let b = u2; let c = u3; T | where u4 == u5",
+	"T | take 1.5 | take 2.5 | top 3.5 by a | limit 'x'",
 }
 
 func init() {
